@@ -127,6 +127,31 @@ Definition idle_ok (m : mstate) : Prop :=
   ps_current (ms_p m) = None /\ ps_next (ms_p m) = 0 /\ ps_lcb (ms_p m) = None /\
   forall j, fst (ms_cache m) = Some j -> 0 < j.
 
+(* A restarted process starts from the state the slice began with or from a
+   state written by a save_state call of that slice, never from anything else
+   (in particular never from scratch once something was saved). *)
+Lemma last_save_cases evs d : last_save evs d = d \/ In (ESave (last_save evs d)) evs.
+Proof.
+  revert d; induction evs as [|e evs IH]; intros d; cbn; [left; reflexivity|].
+  destruct e; try (destruct (IH d) as [H|H]; [left; exact H|right; right; exact H]).
+  destruct (IH p) as [H|H]; [right; left; rewrite H; reflexivity|right; right; exact H].
+Qed.
+
+Lemma restart_state_ok dirs m s evs m' k :
+  sl_kill s = Some k -> do_slice dirs m s = (evs, m') ->
+  m' = load (ms_p m) \/ exists p, In (ESave p) evs /\ m' = load p.
+Proof.
+  intros K H. unfold do_slice in H. destruct (run_slice dirs m (sl_ticks s)) as [evs0 m0]. rewrite K in H.
+  injection H as <- <-. destruct (last_save_cases (firstn k evs0) (ms_p m)) as [E|E].
+  - left. rewrite E. reflexivity.
+  - right. eexists. split; [exact E|reflexivity].
+Qed.
+
+Lemma crash_in_save_ok dirs m ticks k t evs m' :
+  do_slice dirs m (mk_slice ticks (crash_in_save k t)) = (evs, m') ->
+  m' = load (ms_p m) \/ exists p, In (ESave p) evs /\ m' = load p.
+Proof. intros H. eapply restart_state_ok; [|exact H]. reflexivity. Qed.
+
 Section Dirs.
   Variable dirs : list (list name).
 
